@@ -670,7 +670,7 @@ func genRequest(t *rapid.T) *jObj {
 func genValidCase(t *rapid.T) Case {
 	req := genRequest(t)
 	sp := rapid.SampledFrom([]int{0, 0, 0, 1, 2}).Draw(t, "whitespace")
-	return Case{Body: render(req, sp)}
+	return Case{Body: render(req, sp), Inspect: rapid.IntRange(0, 3).Draw(t, "inspector") == 0}
 }
 
 // ---------------------------------------------------------------------------
